@@ -435,6 +435,29 @@ func TestC06(t *testing.T) {
 		}
 	}
 	e.done(true)
+	if t.Failed() {
+		return
+	}
+	// every pair of ranges of every length over a longer sequence (overlap, containment and abutment by any amount
+	// against a part of any length: the small enumeration above stops at four residues), complete and with the
+	// markers that face each other, joined and ordered
+	rp := enumPart(t, c06Prop, st, "range-pairs")
+	RL := pick(16, 30)
+	for s1 := 0; s1 < RL; s1++ {
+		for e1 := s1 + 1; e1 <= RL; e1++ {
+			for s2 := 0; s2 < RL; s2++ {
+				for e2 := s2 + 1; e2 <= RL; e2++ {
+					for _, kind := range []string{"jn", "or"} {
+						if !rp.try(c06Case{Mode: "reduce", Kind: kind, Parts: []Loc{lprg(s1, e1, false, false), lprg(s2, e2, false, false)}}) ||
+							!rp.try(c06Case{Mode: "reduce", Kind: kind, Parts: []Loc{lprg(s1, e1, false, true), lprg(s2, e2, true, false)}}) {
+							return
+						}
+					}
+				}
+			}
+		}
+	}
+	rp.done(true)
 }
 
 // FuzzC06Parse: native coverage-guided fuzzing of the string half (thorough tier only).
